@@ -1,18 +1,40 @@
+/-
+  ptxdrv — the Lean side of the correspondence check.  One request per input line, one
+  canonical answer line per request.  Every request is self-contained (no state between lines).
+  The first token selects the component; components live in Ptx/Drv/*.lean.
+-/
 import Ptx.Wire
+import Ptx.Drv.Cont
+import Ptx.Drv.Parse
+import Ptx.Drv.Lex
+import Ptx.Drv.Life
+import Ptx.Drv.Branch
+import Ptx.Drv.Logic
+import Ptx.Drv.Model
+import Ptx.Drv.Tab
 open Ptx Ptx.Wire
 
+def handlers : List (List String → Option String) :=
+  [Drv.Cont.handle, Drv.Parse.handle, Drv.Lex.handle, Drv.Life.handle, Drv.Branch.handle,
+   Drv.Logic.handle, Drv.Model.handle, Drv.Tab.handle]
+
 def handle (line : String) : String :=
-  match toks line with
+  let ts := toks line
+  match ts with
   | "echo" :: r =>
     match parseSent r with
     | some (s, []) => "ok " ++ showSent s
     | _ => "err:wire"
-  | _ => "err:unknown-request"
+  | _ =>
+    match handlers.findSome? (· ts) with
+    | some out => out
+    | none => "err:unknown-request"
 
 partial def loop (h : IO.FS.Stream) (out : IO.FS.Stream) : IO Unit := do
   let line ← h.getLine
   if line.isEmpty then return ()
-  out.putStrLn (handle (line.dropRightWhile (· == '\n')))
+  let line := if line.endsWith "\n" then (line.dropEnd 1).toString else line
+  out.putStrLn (handle line)
   loop h out
 
 def main : IO Unit := do
